@@ -95,3 +95,5 @@ Qed.
 
 (* reusability: the invariant has the same shape for every window K; it is re-established by the hand-over K -> K+1
    (poll_inv) for arbitrarily many consecutive uses, which is what reachable_inv states for every schedule *)
+
+Definition barrier_init (n : nat) : st := BarrierProto.init n.
